@@ -3,6 +3,7 @@ package main
 import (
 	"fmt"
 	"go/types"
+	"os"
 	"strings"
 
 	"golang.org/x/tools/go/ssa"
@@ -119,10 +120,13 @@ func (vc *VC) staticCall(f *Frame, n *Node, in ssa.Instruction, fn *ssa.Function
 		return m(&callCtx{vc: vc, f: f, n: n, in: in, fn: fn, args: args})
 	}
 	fc := vc.eng.contractFor(fn)
+	if fn.Blocks == nil {
+		vc.eng.ensureBuilt(fn)
+	}
 	if fc != nil && !fc.Inline && !(f.depth == 0 && false) {
 		return vc.applyContract(f, n, in, fn, fc, args)
 	}
-	onStack := false
+	onStack := f.fn == fn
 	for _, s := range f.stack {
 		if s == fn {
 			onStack = true
@@ -184,6 +188,9 @@ func (vc *VC) inline(f *Frame, n *Node, in ssa.Instruction, fn *ssa.Function, fc
 	g, err := buildGraph(fn, anns)
 	if err != nil {
 		panic(unsupported(err.Error()))
+	}
+	if os.Getenv("GOVC_TRACE") != "" {
+		fmt.Fprintf(os.Stderr, "%sinline %s (%d nodes)\n", strings.Repeat("  ", f.depth), fn.String(), len(g.Order))
 	}
 	nf := &Frame{vc: vc, fn: fn, g: g, fc: fc, params: args, free: free,
 		vals: map[ssa.Value]map[string]*SV{}, memo: map[ssa.Value]map[*Node]*SV{},
@@ -438,7 +445,7 @@ func (vc *VC) copyCells(s Sort, dstRow, dstOff, srcRow, srcOff, n string, maxN i
 			if n == bvLit(64, int64(maxN)) {
 				row = sto(row, di, v)
 			} else {
-				row = sto(row, di, ite(app("bvslt", kk, n), v, sel(row, di)))
+				row = sto(row, di, ite(app("bvslt", kk, n), v, sel(dstRow, di))) // (cells are distinct: the untouched value is the original one)
 			}
 		}
 		return vc.def(rowSort(s), row, "row")
